@@ -339,7 +339,10 @@ Definition first_term_is_crcrlf (t : text) : Prop :=
   exists pre post, t = pre ++ CR :: CR :: LF :: post /\ ~ In LF pre.
 (* t ends with exactly one LF *)
 Definition ends_with_one_lf (t : text) : Prop :=
-  exists body, t = body ++ [LF] /\ (body = [] \/ last body 0 <> LF).
+  exists body, t = body ++ [LF] /\ forall b', body <> b' ++ [LF].
+(* t ends with exactly one CR LF *)
+Definition ends_with_one_crlf (t : text) : Prop :=
+  exists body, t = body ++ [CR; LF] /\ forall b', body <> b' ++ [LF].
 (* no LF is immediately preceded by a whitespace char other than LF *)
 Definition no_trailing_ws (t : text) : Prop :=
   forall i c, nth_error t i = Some c -> nth_error t (S i) = Some LF ->
@@ -348,3 +351,10 @@ Definition all_ws (t : text) : Prop := Forall (fun c => is_whitespace c = true) 
 (* the first line of t (up to its LF, or all of t) has a non-whitespace char *)
 Definition first_line_nonblank (t : text) : Prop :=
   exists l c r, t = l ++ c :: r /\ ~ In LF l /\ is_whitespace c = false.
+(* the rest of the text has no LF, or its first line is not blank *)
+Definition skip_stop (r : text) : Prop := ~ In LF r \/ first_line_nonblank r.
+(* a stretch of the stream without LF *)
+Definition no_lf_stream (l : list (kind * char)) : Prop := Forall (fun p => snd p <> LF) l.
+(* the columns an indent string occupies: a tab counts tab_spaces *)
+Definition visual_width (tab_spaces : N) (t : text) : N :=
+  fold_right (fun c acc => (if c =? TAB then tab_spaces else 1) + acc) 0 t.
